@@ -913,6 +913,34 @@ func tkSerializeDecode(c *Ctx, b *tkBatch, format string, tok cashu.Token, tc tk
 	if acc.pProofs != "" {
 		return
 	}
+	// C10: the DLEQ proof travelling with a proof in a token is that proof's OWN (or none) — a third party verifies it
+	// against this very secret and C (input secrets are unique per case unless the case says otherwise)
+	{
+		bySecret := map[string][]cashu.Proof{}
+		for _, p := range tc.proofs {
+			bySecret[p.Secret] = append(bySecret[p.Secret], p)
+		}
+		for _, g := range acc.proofs {
+			cands := bySecret[g.Secret]
+			if len(cands) == 0 {
+				continue // reported by the C14 monitors
+			}
+			ok := false
+			for _, in := range cands {
+				switch {
+				case g.DLEQ == nil:
+					ok = ok || !tc.includeDLEQ || in.DLEQ == nil
+				case in.DLEQ != nil && tc.includeDLEQ:
+					ok = ok || (strings.EqualFold(g.DLEQ.E, in.DLEQ.E) && strings.EqualFold(g.DLEQ.S, in.DLEQ.S) && strings.EqualFold(g.DLEQ.R, in.DLEQ.R))
+				}
+			}
+			if !ok {
+				c.MonitorFail("C10", "C10/token/"+format+"-dleq-not-the-proofs-own", "after NewToken -> Serialize -> DecodeToken a proof carries a DLEQ proof that is not the one it was given (another proof's, or one it never had)",
+					map[string]any{"case": replay, "secret": tkClip(g.Secret, 200), "serialized": tkClip(ser, 3000)})
+				break
+			}
+		}
+	}
 	if format == "v3" {
 		if !tkProofsEq(acc.proofs, wantExact) {
 			fail("proofs", "decoded proofs differ from the input (same order, DLEQ cleared iff includeDLEQ=false)")
